@@ -230,12 +230,16 @@ def replay_item(item):
                 sess.move(base + g[0]['a'][1])
                 proj(g[0]['post'], True)
             elif kind == 'fill':
-                i = g[0]['a'][1]
-                st = sess.storage()
-                if i - 1 >= len(st):
-                    rec.emit('proj', s=1, cmp=True, mq=g[0]['post']['q'], iq=-99999, mact=[], iact=[])   # no such order
+                want = g[0]['a'][3]          # the model order's attributes; matched as a bag element, never by ordinal
+                o = None
+                for i, x in sorted(rec.orders.items()):
+                    if x.is_active and [x.side, x.type, rec.Q(abs(x.qty)), rec.P(x.price), bool(x.reduce_only),
+                                        x.submitted_via or 'none'] == list(want):
+                        o = x
+                        break
+                if o is None:
+                    rec.emit('proj', s=1, cmp=True, mq=g[0]['post']['q'], iq=-99999, mact=[list(want)], iact=[])   # no such order
                     break
-                o = st[i - 1]
                 script.update(slots=[_slot_of(g[0])], ptr=-1)
                 sess.touch(o.price)
                 o.execute()
